@@ -359,7 +359,7 @@ pub fn topo_named(cell: &Cell, name: &str) -> Topo {
             t.hops.iter_mut().for_each(|h| h.kind = HopKind::Silent);
             t
         }
-        "silent-all" => {
+        "silent-all" | "silent-all-flaky" => {
             let mut t = topo_linear(cell, 3, Target::Silent);
             t.hops.iter_mut().for_each(|h| h.kind = HopKind::Silent);
             t
@@ -378,7 +378,7 @@ pub fn topo_named(cell: &Cell, name: &str) -> Topo {
 }
 
 /// Every topology name `topo_named` understands (replay artefacts name one of these).
-pub const TOPO_NAMES: &[&str] = &["L1", "L2", "L3", "L3-flaky", "L4", "grow-2-3", "grow-2-4", "shrink-4-2", "shrink-4-3", "shrink-3-2", "silent-mid", "silent-target", "silent-all", "every-other", "dup", "ecmp", "refuse", "far-target-late", "far-target-from-round-2"];
+pub const TOPO_NAMES: &[&str] = &["L1", "L2", "L3", "L3-flaky", "L4", "grow-2-3", "grow-2-4", "shrink-4-2", "shrink-4-3", "shrink-3-2", "silent-mid", "silent-target", "silent-all", "silent-all-flaky", "every-other", "dup", "ecmp", "refuse", "far-target-late", "far-target-from-round-2"];
 pub const TOPOLOGIES: &[&str] = &["L1", "L2", "L3", "silent-mid", "silent-target", "every-other", "dup", "ecmp"];
 
 // ---------------------------------------------------------------------------------------------
